@@ -335,6 +335,8 @@ DictAllows(D, cap, op, res) ==
     [] op.name = "remove_entry"     -> DRemoveEntry(D, op.c, res)
     [] op.name = "retain"           -> DRetain(D, op.keep, op.w, res)
     [] op.name = "clear"            -> DClear(D, res)
+    [] op.name = "drop"             -> DClear(D, res)
+    [] op.name = "s_drop"           -> DSClear(D, res)
     [] op.name = "drain"            -> DDrain(D, "drain", op.n, op.end, res)
     [] op.name = "cursor" /\ op.kind \in {"iter", "iter_mut", "keys", "values", "values_mut"}
                                     -> DBorrowCursor(D, op.kind, op.n, op.w, res)
